@@ -325,7 +325,7 @@ where
         func_eval = func(guess.as_slice());
         let diff = func_eval - func_eval_last;
         let adjustment = -jac_inv * diff;
-        let s_transpose = shift.transpose();
+        let s_transpose = shift.adjoint();
         let p = (-s_transpose * adjustment)[(0, 0)];
         let u = s_transpose * jac_inv;
         jac_inv += (shift + adjustment) * u / p;
